@@ -22,11 +22,12 @@ TDIGEST_JOB = job("tdigest",
     nontrivial=tdigest_nontrivial,
 )
 
-# seeded accuracy trials (long streams: 10^3 .. 3*10^5 values, k 10..500, merges of up to 20 parts), one verdict per file
+# seeded accuracy trials (long streams: 10^3 .. 3*10^5 values, k 10..500, merges of up to 20 parts) plus one trial each at
+# k = 1000, 8192, 32767, 32768, 32769, 40000, 65535 (2*10^4 .. 6*10^4 values; thorough: 10^6), one verdict per file
 TDIGEST_STAT_JOB = job("tdigest_stat",
     harness="tdigest_rec", inc=["common", "tdigest"], spec="TraceTDigest", owners=["C17"], serde=False,
     files={Q: 2, T: 8},
-    args=lambda tier, seed, k, profile: ["--seed", seed, "--trials", 48 if tier == Q else 160],
+    args=lambda tier, seed, k, profile: ["--seed", seed, "--trials", 48 if tier == Q else 160, "--bign", 0 if tier == Q else 1000000],
     nontrivial=stat_nontrivial,
 )
 
